@@ -254,6 +254,21 @@ def reversible_alphabet(tier="quick"):
     return ops + HELPERS
 
 
+DETACHED_OPS = [("lb_removed", "r1", 3), ("bounds_removed", "r2", -1, 2), ("lb_removed", "EX_C", 1),
+                ("rule_removed", "r1", "g1 or g3")]
+
+
+def sandwich_alphabet(tier="quick"):
+    """Operations for context sandwiches `enter, a, b, exit` (C01/C02): every structural/stoichiometric/objective
+    operation plus edits of reactions that the driver removed (detached objects)."""
+    keep = {"lb", "bounds", "add_mets", "iadd", "imul", "set_reaction", "rule", "gene_ko", "add_rxns", "remove_rxns",
+            "remove_from_model", "add_back", "add_model_mets", "remove_mets", "add_boundary", "remove_genes", "rename_genes",
+            "merge", "set_id", "objective", "obj_coef", "direction", "add_cons_vars", "remove_cons_vars", "solver",
+            "optimize", "h_copy"}
+    ops = [o for o in alphabet(tier) if o[0] in keep]
+    return ops + DETACHED_OPS
+
+
 NOT_REVERSIBLE = {"add_groups", "remove_groups", "set_id", "set_gene_id", "repair", "tolerance",
                   "h_copy", "h_deepcopy", "h_pickle", "gene_ko_direct"}
 
@@ -333,6 +348,16 @@ def apply_op(S, op):
         o.remove_from_model()
         if o.id not in m.reactions:
             S.removed[o.id] = o
+    elif k in ("lb_removed", "bounds_removed", "rule_removed"):
+        o = S.removed.get(op[1])
+        if o is None or getattr(o, "_model", None) is not None:
+            raise Disabled(op[1])
+        if k == "lb_removed":
+            o.lower_bound = op[2]
+        elif k == "bounds_removed":
+            o.bounds = (op[2], op[3])
+        else:
+            o.gene_reaction_rule = op[2]
     elif k == "add_back":
         o = S.removed.get(op[1])
         if o is None or getattr(o, "_model", None) is not None or o.id in m.reactions:
